@@ -14,3 +14,9 @@ REG.add(Contract('<ext>', 'SectionProxy.get',
     ensures=lambda v, old, res: [res.isnone == z3.Not(sec_has(v.self, v.option)), z3.Implies(z3.Not(res.isnone), res.val.z == sec_get(v.self, v.option))],
     external=True, note='configparser.SectionProxy.get(option, fallback=None): the value text, or the fallback when the option is absent',
     props=['C11', 'C16']))
+
+REG.add(Contract('<ext>', 'SectionProxy.__getitem__',
+    params=[('self', T.Obj('SectionProxy')), ('key', T.Str)], result=T.Str,
+    ensures=lambda v, old, res: [res == sec_get(v.self, v.key)],
+    may_raise=lambda v: [('KeyError', z3.Not(sec_has(v.self, v.key)))],
+    external=True, note='configparser.SectionProxy[key]: the value text; KeyError when the option is absent', props=['C18', 'C16']))
